@@ -36,6 +36,20 @@ class InjectedFault(Exception):
     pass
 
 
+class InjectedAssertion(AssertionError):
+    pass
+
+
+class InjectedKeyError(KeyError):
+    pass
+
+
+# the statement says "an exception": besides a plain Exception subclass, two types the library itself raises and catches
+# in places (assert statements of the state machine; KeyError around dictionary look-ups)
+EXC_KINDS = {'plain': InjectedFault, 'assertion': InjectedAssertion, 'keyerror': InjectedKeyError}
+EXC_KIND = 'plain'
+
+
 class Env:
     def __init__(self, plan: Optional[Tuple[str, int, str]]) -> None:
         self.plan = plan
@@ -53,7 +67,7 @@ class Env:
         n = self.counts.get(key, 0) + 1
         self.counts[key] = n
         if self.plan is not None and self.plan == (site, n, position):
-            self.injected = InjectedFault(f'{site}#{n}:{position}')
+            self.injected = EXC_KINDS[EXC_KIND](f'{site}#{n}:{position}')
             self.injected_during = self.phase
             self.injected_after_termination = self.proc is not None and self.proc.has_terminated()
             raise self.injected
@@ -398,10 +412,12 @@ def judge(scenario: str, plan: Tuple[str, int, str], run: Run, twin: Run) -> Lis
         f = {'site': site, 'position': position, 'scenario': scenario}
         if run.program != 'process':
             f['program'] = run.program
+        if EXC_KIND != 'plain':
+            f['exc_kind'] = EXC_KIND
         f.update(feats)
         out.append({'clause': clause, 'features': f, 'detail': detail,
                     'case': {'scenario': scenario, 'site': site, 'occurrence': occurrence, 'position': position,
-                             'program': run.program}})
+                             'program': run.program, 'exc_kind': EXC_KIND}})
 
     fault = ENV.injected
     if fault is None:
@@ -501,22 +517,30 @@ def check_scenario(job: Any) -> Dict[str, Any]:
     per_site: Dict[Tuple[str, str], int] = {}
     for (site, position, _who), n in counts.items():
         per_site[(site, position)] = max(per_site.get((site, position), 0), n)
+    global EXC_KIND
     for (site, position), n in sorted(per_site.items()):
         for occurrence in range(1, n + 1):
-            plan = (site, occurrence, position)
-            run = Run(scenario, plan, program)
-            try:
-                with explore.watchdog(2 * explore.WATCHDOG_S):
-                    run.execute()
-            except explore.Hang as hang:
-                res['violations'].append({'clause': 'hang', 'features': {'site': site, 'position': position, 'scenario': scenario},
-                                          'detail': str(hang), 'case': {'scenario': scenario, 'site': site, 'occurrence': occurrence, 'position': position, 'program': program}})
-                continue
-            res['n'] += 1
-            if ENV.injected is not None:
-                res['reached'] += 1
-                res['sites'].add(site)
-            res['violations'].extend(judge(scenario, plan, run, twin))
+            for exc_kind in EXC_KINDS:
+                EXC_KIND = exc_kind
+                try:
+                    plan = (site, occurrence, position)
+                    case = {'scenario': scenario, 'site': site, 'occurrence': occurrence, 'position': position,
+                            'program': program, 'exc_kind': exc_kind}
+                    run = Run(scenario, plan, program)
+                    try:
+                        with explore.watchdog(2 * explore.WATCHDOG_S):
+                            run.execute()
+                    except explore.Hang as hang:
+                        res['violations'].append({'clause': 'hang', 'features': {'site': site, 'position': position, 'scenario': scenario},
+                                                  'detail': str(hang), 'case': case})
+                        continue
+                    res['n'] += 1
+                    if ENV.injected is not None:
+                        res['reached'] += 1
+                        res['sites'].add(site)
+                    res['violations'].extend(judge(scenario, plan, run, twin))
+                finally:
+                    EXC_KIND = 'plain'
     return res
 
 
@@ -544,7 +568,8 @@ def run_check(tier: str, seed: int, workers: Any) -> Dict[str, Any]:
         'rule': f'{len(names)} scenarios (plain run; pause / kill / pause+kill / pause+play with the first request after every tick count 0..{N_TICKS}) x every fault site reached in the un-faulted census run (step functions, scheduled '
                 'callback, output hooks, every on_* lifecycle hook, on_entering/on_entered/on_exiting, pause/play hooks, '
                 'state enter/exit of every state, init, every ProcessListener method) x every occurrence index x '
-                '{before, after} the super call, one fault per run; non-trivial = the planned fault was actually raised',
+                '{before, after} the super call x exception type {Exception subclass, AssertionError subclass, KeyError subclass}, '
+                'one fault per run; non-trivial = the planned fault was actually raised',
         'samples': [{'scenario': names[0], 'script': SCENARIOS[names[0]], 'site': 'on_running', 'occurrence': 1, 'position': 'after'}],
         'exhaustive': True,
     }
@@ -557,9 +582,14 @@ def replay(doc: Dict[str, Any]) -> List[dict]:
     case = doc['case']
     if 'site' not in case:
         return check_scenario((case['scenario'], case.get('program', 'process')))['violations']
+    global EXC_KIND
     program = case.get('program', 'process')
     twin, _ = census(case['scenario'], program)
     plan = (case['site'], case['occurrence'], case['position'])
-    run = Run(case['scenario'], plan, program)
-    run.execute()
-    return judge(case['scenario'], plan, run, twin)
+    EXC_KIND = case.get('exc_kind', 'plain')
+    try:
+        run = Run(case['scenario'], plan, program)
+        run.execute()
+        return judge(case['scenario'], plan, run, twin)
+    finally:
+        EXC_KIND = 'plain'
